@@ -39,6 +39,8 @@ struct Db {
     names: Vec<String>,
     dir: PathBuf,
     family: Family,
+    /// indices (into the fixture's chunk list) of the first and the last chunk
+    range: (usize, usize),
     /// blocks of all chunks but the last (the immutable ones), in order
     imm: Vec<BRef>,
     /// blocks of the last (volatile, never served) chunk
@@ -190,7 +192,7 @@ fn build_dbs(fx: &Fixture, scratch: &Scratch) -> Vec<Db> {
         let all = |c: usize| (0..fx.chunks[c].blocks.len()).map(move |b| BRef { chunk: c, block: b });
         let imm: Vec<BRef> = (i..j).flat_map(all).collect();
         let last: Vec<BRef> = all(j).collect();
-        dbs.push(Db { label, names, dir, family, imm, last });
+        dbs.push(Db { label, names, dir, family, range: (i, j), imm, last });
     }
     dbs
 }
@@ -211,8 +213,17 @@ fn strides(db: &Db, thorough: bool) -> (usize, usize, usize, usize) {
     }
 }
 
+/// Point reads are made on every database, except that the quick tier takes, of the mixed
+/// databases, only those starting at the first or at one of the last three Byron chunks.
+fn explored(fx: &Fixture, db: &Db, thorough: bool) -> bool {
+    thorough || db.family != Family::Mixed || db.range.0 == 0 || db.range.0 + 3 >= fx.nb
+}
+
 fn cases_for(fx: &Fixture, dbi: usize, db: &Db, thorough: bool) -> Vec<Case> {
     let mut v = vec![];
+    if !explored(fx, db, thorough) {
+        return v;
+    }
     let n = db.imm.len();
     let slots: Vec<u64> = db.imm.iter().map(|r| fx.slot(*r)).collect();
     let (st_absent, st_variants, st_fuzzy, st_exact) = strides(db, thorough);
@@ -294,8 +305,10 @@ fn cases_for(fx: &Fixture, dbi: usize, db: &Db, thorough: bool) -> Vec<Case> {
         fuzzy.extend([fx.slot(*a), fx.slot(*b)]);
     }
     if thorough {
-        for w in slots.windows(2) {
-            fuzzy.insert(w[0] + (w[1] - w[0]) / 2);
+        for (k, w) in slots.windows(2).enumerate() {
+            if take(k, st_fuzzy) {
+                fuzzy.insert(w[0] + (w[1] - w[0]) / 2);
+            }
         }
         // Shelley family: every slot of the epochs of the immutable chunks, stride 1.
         // Byron epochs (at most 3 main blocks each): a window around every block and chunk
@@ -423,14 +436,6 @@ pub fn run(ctx: Ctx) -> ! {
 
     // ---- point reads
     let cases: Vec<Case> = dbs.iter().enumerate().flat_map(|(i, d)| cases_for(&fx, i, d, ctx.thorough)).collect();
-    if std::env::var("C42_TIMING").is_ok() {
-        for f in [Family::Shelley, Family::Byron, Family::Mixed] {
-            let t = std::time::Instant::now();
-            let sub: Vec<&Case> = cases.iter().filter(|c| dbs[c.db].family == f).collect();
-            let _r: Vec<_> = sub.par_iter().map(|c| read_from(&fx, &dbs[c.db], c.slot, &c.hash)).collect();
-            eprintln!("TIMING {f:?}: {} cases {:?}", sub.len(), t.elapsed());
-        }
-    }
     let results: Vec<Result<Outcome, mc_core::panics::PanicInfo>> = cases.par_iter().map(|c| read_from(&fx, &dbs[c.db], c.slot, &c.hash)).collect();
     evals += cases.len() as u64;
 
@@ -586,7 +591,7 @@ pub fn run(ctx: Ctx) -> ! {
     if fam(Family::Shelley).count() != 6 || total_imm != 864 + 913 + 1777 || exact_of(Family::Shelley, false) != total_imm {
         scratch.fail(&format!("C42 enumeration incomplete: dbs={} immutable blocks={total_imm}", dbs.len()));
     }
-    let byron_blocks_in_mixed: usize = fam(Family::Mixed).map(|(_, d)| d.imm.iter().filter(|r| fx.byron(**r)).count()).sum();
+    let byron_blocks_in_mixed: usize = fam(Family::Mixed).filter(|(_, d)| explored(&fx, d, ctx.thorough)).map(|(_, d)| d.imm.iter().filter(|r| fx.byron(**r)).count()).sum();
     if nb < 4
         || !fx.chunks[..nb].iter().any(|c| c.blocks.iter().filter(|b| !b.ebb).count() >= 2)
         || fx.chunks[..nb].iter().any(|c| !c.blocks[0].ebb || c.blocks[1..].iter().any(|b| b.ebb))
@@ -600,8 +605,9 @@ pub fn run(ctx: Ctx) -> ! {
     if exact_ok == 0 || counts.get("Fuzzy").copied().unwrap_or(0) == 0 || counts.get("Absent").copied().unwrap_or(0) == 0 || cross_chunk_fuzzy == 0 {
         scratch.fail("C42 vacuous: no accepted exact point / no fuzzy point / no absent point / no fuzzy point crossing a chunk boundary");
     }
-    if ebb_start_points == 0 || ebb_start_points_ok == 0 || byron_exact_ok == 0 || fuzzy_answered_by_ebb == 0 || cross_chunk_fuzzy_byron == 0 || exact_sharing_slot == 0 {
-        scratch.fail("C42 vacuous on the Byron family: no (accepted) EBB start point / no fuzzy point answered by an EBB / none crossing a chunk boundary / no main block in the slot of its EBB");
+    // (reached, not "accepted": a defect that breaks every EBB start point is a violation, not a machinery failure)
+    if ebb_start_points == 0 || fuzzy_answered_by_ebb == 0 || cross_chunk_fuzzy_byron == 0 || exact_sharing_slot == 0 {
+        scratch.fail("C42 vacuous on the Byron family: no EBB start point / no fuzzy point answered by an EBB / none crossing a chunk boundary / no main block in the slot of its EBB");
     }
 
     // first witness per fingerprint = first in enumeration order (deterministic; results were collected in case order)
@@ -621,6 +627,7 @@ pub fn run(ctx: Ctx) -> ! {
         "fuzzy_points_answered_from_a_later_chunk" => cross_chunk_fuzzy,
         "byron_databases" => fam(Family::Byron).count(),
         "mixed_databases" => fam(Family::Mixed).count(),
+        "mixed_databases_with_point_reads" => fam(Family::Mixed).filter(|(_, d)| explored(&fx, d, ctx.thorough)).count(),
         "byron_cases" => fam_cases.get("byron").copied().unwrap_or(0),
         "mixed_cases" => fam_cases.get("mixed").copied().unwrap_or(0),
         "shelley_cases" => fam_cases.get("shelley").copied().unwrap_or(0),
@@ -649,7 +656,7 @@ pub fn run(ctx: Ctx) -> ! {
             "the Shelley-family test blocks are Babbage-era; the Byron family is synthetic: one chunk per epoch = that epoch's EBB (genesis.block with the epoch field of its consensus data re-encoded) + the byronN.block fixtures of the epoch in slot order, full-size primary index (21601 relative slots, EBB in relative slot 0), secondary entries carrying the epoch number for the EBB; the index writer is checked to reproduce the index files of fixtures 01285 and 01836 byte for byte",
             "one synthetic main block (byron3.block with its slot-in-epoch re-encoded from 1 to 0) sits in the same absolute slot as the EBB of its chunk; reference order 'EBB before the main block of the same slot', a fuzzy point on that slot starts at the EBB, both (slot, hash) pairs are existing points",
             "block signatures, body proofs and prev-hash links of the synthetic Byron chain are not consistent (none of the readers under test looks at them)",
-            "in mixed databases the Shelley-family blocks are sampled (they are enumerated completely in their own family); the slots of a Byron epoch (at most 3 main blocks) are not all taken as fuzzy points: windows around blocks and chunk boundaries plus a stride (see fuzzy_stride)",
+            "in mixed databases the Shelley-family blocks are sampled (they are enumerated completely in their own family); the quick tier makes point reads only on the mixed databases that start at the first or at one of the last three Byron chunks (read_blocks and get_tip on all); the slots of a Byron epoch (at most 3 main blocks) are not all taken as fuzzy points: windows around blocks and chunk boundaries plus a stride (see fuzzy_stride)",
         ],
     )
 }
